@@ -20,6 +20,8 @@ def programs(tick, unit, kind):
                                          on_reduced={'sl': 'all', 'sl_d': 2}, cancel_entry=True)),
         ('partial-tp-breakeven', dict(b, side='long', enter={'when': 'flat', 'legs': [[2, -1]]}, on_open={'sl': [[2, 2]], 'tp': [[1, 1], [1, 3]]},
                                       on_reduced={'sl': 'breakeven'}, cancel_entry=True)),
+        ('decimal-2leg-fixed-exit', dict(b, side='long', enter={'when': 'flat', 'legs': [[0.1, 0], [0.2, -1]]}, on_open={'sl': [[0.1, 4]], 'tp': [[0.1, 3]]},
+                                         on_increased={'sl': [[0.3, 4]], 'tp': [[0.3, 2]]}, cancel_entry=False)),
         ('hold-to-end', dict(b, side='long', enter={'when': {'at': [1]}, 'legs': [[1, 0]]}, on_open={'sl': 'all', 'tp': 'all', 'sl_d': 30, 'tp_d': 30}, cancel_entry=True)),
         ('liquidate-at-3', dict(b, side='long', enter={'when': {'at': [0, 4]}, 'legs': [[2, 0]]}, on_open={'sl': 'all', 'tp': 'all', 'sl_d': 4, 'tp_d': 4},
                                 update=[{'at': 3, 'liquidate': True}], cancel_entry=True)),
